@@ -258,6 +258,7 @@ def run(chk):
     struct_attribute_obligations(chk, e, m)
     chk.use_engine(e)
     chk.section("trace_call", lambda: trace_call_obligations(chk))
+    chk.section("return-shapes", lambda: return_shapes(chk))
 
 
 REPLAY_STRUCT_METHOD = r'''
@@ -627,3 +628,66 @@ def trace_call_obligations(chk, tag=""):
                         func=f"{FN}:trace_call", replay=lambda m_: {"script": REPLAY_TRACE_OVERLOAD, "input": {}})
     chk.record(f"{tag}trace_call:argument-shapes-explored", n >= 100, str(n), kind="reachability")
     chk.use_engine(e)
+
+
+REPLAY_RETURN = r'''
+import guppy_plainbool
+import tempfile, importlib.util, os, sys, shutil
+from guppylang_internals.error import GuppyError
+SHAPES = {
+    "scalar": ("int", "x + 1", "result('{m}', r)"),
+    "none": ("None", "None", "result('{m}', 0)"),
+    "pair": ("tuple[int, int]", "(x + 1, x + 2)", "result('{m}', r[0] * 10 + r[1])"),
+    "one-tuple": ("tuple[int]", "(x + 1,)", "result('{m}', r[0])"),
+    "nested": ("tuple[tuple[int, int], int]", "((x, x + 1), x + 2)", "result('{m}', r[0][0] * 100 + r[0][1] * 10 + r[1])"),
+    "one-tuple-of-pair": ("tuple[tuple[int, int]]", "((x, x + 1),)", "result('{m}', r[0][0] * 10 + r[0][1])"),
+    "array": ("array[int, 2]", "array(x, x + 1)", "result('{m}', r[0] * 10 + r[1])"),
+}
+I = INPUT
+ret, expr, rep = SHAPES[I["shape"]]
+src = f"""from guppylang import guppy
+from guppylang.std.builtins import array, result
+@guppy.comptime
+def c(x: int) -> {ret}:
+    return {expr}
+@guppy
+def r_(x: int) -> {ret}:
+    return {expr}
+@guppy
+def main() -> None:
+    r = c(3)
+    {rep.format(m='comptime')}
+    r = r_(3)
+    {rep.format(m='regular')}
+"""
+d = tempfile.mkdtemp(dir=os.environ.get("TMPDIR", "/var/tmp")); fn = os.path.join(d, "replay_c21r.py"); open(fn, "w").write(src)
+spec = importlib.util.spec_from_file_location("replay_c21r", fn); m = importlib.util.module_from_spec(spec); sys.modules["replay_c21r"] = m
+spec.loader.exec_module(m)
+try:
+    ent = {t: int(v) for t, v in list(m.main.emulator(n_qubits=1).run().results)[0].entries}
+    out = {"violates": ent.get("comptime") != ent.get("regular"), "evaluations": 1, "observed": ent}
+except GuppyError as ex:
+    out = {"violates": True, "evaluations": 1, "observed": "rejected: " + type(ex.error).__name__}
+except Exception as ex:
+    out = {"violates": True, "evaluations": 1, "observed": "crash: " + type(ex).__name__ + ": " + str(ex)[:160]}
+shutil.rmtree(d, ignore_errors=True)
+out["detail"] = f"a function returning {ret}: comptime vs regular {out['observed']}"
+print(json.dumps(out))
+'''
+
+
+def return_shapes(chk):
+    """BOUNDED: a comptime function and the regular function with the same body hand the same value back, for
+    every shape of the declared result (scalar, None, tuples of length 1 and 2, nested tuples, arrays)."""
+    import json
+    from pyvc.report import run_replay
+    for shape in ("scalar", "none", "pair", "one-tuple", "nested", "one-tuple-of-pair", "array"):
+        res = run_replay(REPLAY_RETURN, {"shape": shape}, chk.repo, timeout=900)
+        if "evaluations" not in res:
+            chk.undecided(f"bounded:comptime-return[{shape}]", "oracle run failed: " + json.dumps(res)[:600])
+            continue
+        o = chk.bounded_result(f"bounded:comptime-return[{shape}]:comptime-and-regular-function-with-the-same-body-report-the-same-value", not res.get("violates"), 1,
+                               detail=res.get("detail"), witness={"shape": shape, "observed": res.get("observed")} if res.get("violates") else None,
+                               func="guppylang_internals.tracing.function:trace_function")
+        if res.get("violates"):
+            o.replay.update({"script": REPLAY_RETURN, "input": {"shape": shape}})
